@@ -2141,7 +2141,8 @@ def body(ctx):
     pristine = Pristine(H, entries)          # forked before any library function has run in this process
     try:
         import time
-        corpus(ctx, H)
+        if os.environ.get("VERIF_C18_NO_CORPUS") != "1":     # self-test switch: do the generators alone find it?
+            corpus(ctx, H)
         t = [time.time()]
         inventory(ctx, H, entries)
         t.append(time.time())
